@@ -24,7 +24,8 @@ Definition acceptable (cfg : config) (s : sstate) (lm : message) : Prop :=
      | None => True
      | Some (lo, hi) => (lo <= st_hb ns <= hi)%Z
      end
-  /\ c_approve cfg ns = true.
+  /\ c_approve cfg ns = true
+  /\ (0 < st_hb ns)%Z.    (* the timers can be started: Session.start succeeds *)
 
 Lemma check_params_none cfg s enc hb :
   check_logon_params cfg s enc hb = None ->
@@ -62,7 +63,11 @@ Proof.
       rewrite C in S'. cbn [s_state upd_settings] in S'. congruence.
     + destruct (c_approve cfg ns) eqn:Ap; cbn [negb] in H.
       * destruct (check_params_none _ _ _ _ Ck) as (A1 & A2). cbn [s_settings upd_settings st_limits logon_settings] in A2.
-        split; [unfold acceptable; fold ns; repeat split; assumption|].
+        match type of H with context [Z.leb ?hb 0] => destruct (Z.leb_spec hb 0) as [Hhb|Hhb] end.
+        { exfalso. destruct (session_send cfg (upd_settings s ns) _) as [s2 o2] eqn:E. inversion H; subst.
+          destruct (session_send_spec _ _ _ _ _ E) as (_ & C & _). destruct C as (C & _).
+          rewrite C in S'. cbn [s_state upd_settings] in S'. congruence. }
+        split; [unfold acceptable; fold ns; repeat split; try assumption; exact Hhb|].
         destruct (change_state (start_timers (upd_settings s ns)) SuccessfulLogged) as [s3 o3] eqn:E3.
         destruct (session_send cfg s3 _) as [s4 o4] eqn:E4.
         destruct (process_inc_seq cfg s4 _) as [s5 o5] eqn:E5. inversion H; subst.
@@ -131,16 +136,37 @@ Theorem logon_accepted cfg s d lm :
   parse_as msgtype_Logon tpl_Logon d = Ok lm -> s_state s = WaitingLogon ->
   let ns := logon_settings cfg (s_settings s) lm in
   check_logon_params cfg (upd_settings s ns) (st_enc ns) (st_hb ns) = None -> c_approve cfg ns = true ->
+  (0 < st_hb ns)%Z ->
   run_in_handler cfg s HLogon d =
   (let '(s3, o3) := change_state (start_timers (upd_settings s ns)) SuccessfulLogged in
    let '(s4, o4) := session_send cfg s3 (logon_answer (st_enc ns) (st_hb ns)) in
    let '(s5, o5) := process_inc_seq cfg s4 (get_int tag_MsgSeqNum (m_header lm)) in
    (s5, o3 ++ o4 ++ o5, true)).
 Proof.
-  intros P St ns Ck Ap. cbn [run_in_handler]. rewrite P, St.
+  intros P St ns Ck Ap Hhb. cbn [run_in_handler]. rewrite P, St.
   fold (logon_settings cfg (s_settings s) lm). fold ns.
   change (get_string tag_EncryptMethod (m_body lm)) with (st_enc ns).
-  change (get_int tag_HeartBtInt (m_body lm)) with (st_hb ns). rewrite Ck, Ap. reflexivity.
+  change (get_int tag_HeartBtInt (m_body lm)) with (st_hb ns). rewrite Ck, Ap. cbn [negb].
+  destruct (Z.leb_spec (st_hb ns) 0); [lia|]. reflexivity.
+Qed.
+
+(* a Logon within the limits and approved, but with an interval no timer can be started with
+   (possible only when the configured limits admit a non-positive interval): one Reject naming
+   HeartBtInt, and the session stays where it was *)
+Theorem logon_unstartable cfg s d lm :
+  parse_as msgtype_Logon tpl_Logon d = Ok lm -> s_state s = WaitingLogon ->
+  let ns := logon_settings cfg (s_settings s) lm in
+  check_logon_params cfg (upd_settings s ns) (st_enc ns) (st_hb ns) = None -> c_approve cfg ns = true ->
+  (st_hb ns <= 0)%Z ->
+  run_in_handler cfg s HLogon d =
+  (let '(s', o) := session_send cfg (upd_settings s ns)
+                     (mk_reject reject_incorrect_value tagnum_HeartBtInt (get_int tag_MsgSeqNum (m_header lm))) in (s', o, true)).
+Proof.
+  intros P St ns Ck Ap Hhb. cbn [run_in_handler]. rewrite P, St.
+  fold (logon_settings cfg (s_settings s) lm). fold ns.
+  change (get_string tag_EncryptMethod (m_body lm)) with (st_enc ns).
+  change (get_int tag_HeartBtInt (m_body lm)) with (st_hb ns). rewrite Ck, Ap. cbn [negb].
+  destruct (Z.leb_spec (st_hb ns) 0); [reflexivity|lia].
 Qed.
 
 Lemma logon_answer_fields enc hb :
